@@ -350,6 +350,13 @@ class IntroVisitor(ast.NodeVisitor):
         )
         if fi_or_p is not None and isinstance(fi_or_p, FunctionInteractions):
             self.inters.append(fi_or_p)
+            if InspectFunction.is_keep_call(
+                node, self._gctx, self._start_mod, self._function_var_names
+            ):
+                # The function given to dds.keep has just been introspected with its arguments.
+                # It must not be introspected again as a higher-order reference (without arguments):
+                # the paths kept inside it would be assigned a second, context-dependent signature.
+                self._store_names.add(LocalVar(node.args[1].id))  # type: ignore
         # str is the underlying type of a DDSPath
         if fi_or_p is not None and isinstance(fi_or_p, str):
             self.load_paths.append(fi_or_p)
@@ -783,6 +790,25 @@ class InspectFunction(object):
                     )
                     return store_path
         return None
+
+    @classmethod
+    def is_keep_call(
+        cls,
+        node: ast.Call,
+        gctx: EvalMainContext,
+        mod: ModuleType,
+        var_names: Set[LocalVar],
+    ) -> bool:
+        """True if the node is a call of the form dds.keep(path, function_name, ...)"""
+        if len(node.args) < 2 or not isinstance(node.args[1], ast.Name):
+            return False
+        local_path = LocalDepPath(PurePosixPath("/".join(_function_name(node.func))))
+        if str(local_path.parts[0]) in var_names:
+            return False
+        z: ObjectRetrievalType = ObjectRetrieval.retrieve_object(local_path, mod, gctx)
+        return isinstance(
+            z, AuthorizedObject
+        ) and z.resolved_path == CanonicalPathUtils.from_list(["dds", "keep"])
 
     @classmethod
     def inspect_call(
